@@ -178,7 +178,7 @@ type attLayout struct {
 	padFrom  int    // first byte after the last PEM block
 	// structural fields
 	sigLenOff, outerSizeOff, authSizeOff, certTypeOff, certSizeOff int
-	qsig, attkey, qerep, qesig, authdata                          [2]int
+	qsig, attkey, qerep, qesig, authdata                           [2]int
 	idRanges, rdRange                                              [][2]int
 }
 
@@ -588,19 +588,19 @@ type attEval struct {
 }
 
 type attScen struct {
-	SID     string          `json:"sid"`
-	Quote   string          `json:"quote"`
-	TcbSet  string          `json:"tcbset"`
-	QeSet   string          `json:"qeset"`
-	Tee     string          `json:"tee"`
-	Coll    map[string]bool `json:"coll"`
+	SID     string            `json:"sid"`
+	Quote   string            `json:"quote"`
+	TcbSet  string            `json:"tcbset"`
+	QeSet   string            `json:"qeset"`
+	Tee     string            `json:"tee"`
+	Coll    map[string]bool   `json:"coll"`
 	St      map[string]string `json:"st"`
-	StWhy   string          `json:"st_why"`
-	CDev    int             `json:"cdev"`
-	Times   []attTime       `json:"times"`
-	Evals   []attEval       `json:"evals"`
-	Regions []string        `json:"regions"`
-	BlCase  bool            `json:"blcase"` // the FMSPC has letters, so a case-variant list entry exists
+	StWhy   string            `json:"st_why"`
+	CDev    int               `json:"cdev"`
+	Times   []attTime         `json:"times"`
+	Evals   []attEval         `json:"evals"`
+	Regions []string          `json:"regions"`
+	BlCase  bool              `json:"blcase"` // the FMSPC has letters, so a case-variant list entry exists
 }
 
 func attPos(t, lo, hi time.Time) string {
